@@ -49,6 +49,7 @@ pub fn replay(doc: &J) -> i32 {
         "C18" => crate::driver::replay::<crate::props_mclmc::MclmcScenario>(doc),
         "C09" => crate::driver::replay::<crate::props_sched_adapt::WindowScenario>(doc),
         "C07" | "C08" => crate::driver::replay::<crate::props_adapt::AdaptScenario>(doc),
+        "C04" | "C01" if doc["batch"].as_str().unwrap_or("").starts_with("stationar") => crate::driver::replay::<crate::props_stationary::StationaryScenario>(doc),
         "C04" => crate::driver::replay::<crate::props_posterior::PosteriorScenario>(doc),
         "C01" => crate::driver::replay::<crate::props_c01::NutsScenario>(doc),
         "C02" => crate::driver::replay::<crate::props_c01::LeapfrogScenario>(doc),
@@ -876,10 +877,57 @@ fn c04(tier: Tier, seed: u64) -> i32 {
         };
         PosteriorScenario { preset, target, n_chains: 32, seed: r.next_u64(), n_truth: 2_000_000 }
     });
+    let n2 = ctx.n(32, 800);
+    ctx.run_batch("stationarity", "invariance of one NUTS transition (direct drive, fixed transformation and step size): N independent particles start from exact draws of the target and make k transitions; their distribution (every coordinate and the log density, 5 quantile levels) must still be the target's, compared with an independent reference sample by exact binomial z statistics (critical 6); valid whatever the mixing speed", n2, |rs, i| {
+        gen_stationary(rs, "C04", i, quick)
+    });
     ctx.finish("exploration", components_engine_a_math(), vec![
         "no schedule and no fault in this property: the family contributes seeded repeatability and the momentum seam (weak fit, DESIGN.md §5 C04)".into(),
         "thresholds at a two-sided level of 1e-7 per statistic with between-chain standard errors (valid whatever the autocorrelation); a behaviour-preserving change that reshuffles the random stream cannot plausibly trip it; small biases below ~1 standard error of 32 chains x 4000 draws are not detectable".into(),
     ], json!({}))
+}
+
+/// Cells of the stationarity oracle: target with a direct sampler x transformation (identity, matched,
+/// mismatched, low-rank) x kinetic energy x step size (small .. near the stability limit) x depth options.
+pub fn gen_stationary(rs: u64, prop: &str, i: u64, quick: bool) -> crate::props_stationary::StationaryScenario {
+    use crate::props_c01::TransformSpec;
+    let mut r = Prng::sub(rs, "stationary");
+    let d = r.usize_in(1, 4);
+    let target = match i % 6 {
+        0 => crate::density::std_normal(d),
+        1 => crate::density::Target::StudentT { nu: *r.pick(&[3.0, 5.0, 8.0]), mu: (0..d).map(|_| r.uniform(-1.0, 1.0)).collect(), scale: (0..d).map(|_| r.log_uniform(0.5, 2.0)).collect() },
+        2 => { let eig: Vec<f64> = (0..d).map(|_| r.log_uniform(0.2, 5.0)).collect(); let mu = (0..d).map(|_| r.uniform(-1.0, 1.0)).collect(); crate::density::dense_normal(&mut r, mu, &eig).0 }
+        3 => crate::density::Target::LogGamma { a: (0..d).map(|_| r.range(1, 5) as f64).collect() },
+        4 => crate::density::Target::DiagNormal { mu: (0..d).map(|_| r.uniform(-2.0, 2.0)).collect(), sigma: (0..d).map(|_| r.log_uniform(0.3, 3.0)).collect() },
+        _ => crate::density::Target::Banana { dim: d.max(2), b: r.uniform(0.1, 0.5) },
+    };
+    let d = target.dim();
+    // transformation: identity, roughly matched scales, or a seeded (mismatched) diagonal / low-rank one
+    let transform = match r.below(4) {
+        0 => TransformSpec::Diag { stds: vec![1.0; d], mean: vec![0.0; d] },
+        1 => TransformSpec::Diag { stds: (0..d).map(|_| r.log_uniform(0.5, 2.0)).collect(), mean: (0..d).map(|_| r.uniform(-0.5, 0.5)).collect() },
+        _ => {
+            let mut t = crate::props_c01::gen_transform(&mut r, d, true);
+            // keep the mismatch moderate (the kernel stays valid for any transformation, but trajectories get long)
+            match &mut t {
+                TransformSpec::Diag { stds, .. } => stds.iter_mut().for_each(|s| *s = s.clamp(0.3, 3.0)),
+                TransformSpec::LowRank { stds, vals, .. } => { stds.iter_mut().for_each(|s| *s = s.clamp(0.3, 3.0)); vals.iter_mut().for_each(|v| *v = v.clamp(0.3, 3.0)); }
+            }
+            t
+        }
+    };
+    let exact_normal = (i / 6) % 2 == 1;
+    let step_size = *r.pick(&[0.1, 0.25, 0.5, 0.8, 1.2]);
+    let maxdepth = *r.pick(&[1u64, 2, 3, 5, 6]);
+    let n_particles = if quick { 20_000 } else { 60_000 };
+    crate::props_stationary::StationaryScenario {
+        prop: prop.to_string(), target, transform, exact_normal, step_size, maxdepth,
+        // default tree options only (C01's quantifier): extra_doublings > 0 extends a finished tree without
+        // any check, which is not reversible - the oracle shows it (z = 8 after one transition)
+        mindepth: 0,
+        extra_doublings: 0,
+        n_particles, k: *r.pick(&[1u64, 3, 6]), seed: r.next_u64(),
+    }
 }
 
 pub fn components_direct_drive() -> J {
@@ -895,6 +943,9 @@ fn c01(tier: Tier, seed: u64) -> i32 {
     let mut ctx = Ctx::new("C01", tier, seed);
     let n = ctx.n(4000, 400_000);
     ctx.run_batch("scripted_transitions", "scenario = target (Gaussians, Student-t, banana; dimension 1..8) x explicit diagonal or low-rank transformation (rank 0..d, random orthonormal eigenvectors) x Euclidean / ExactNormal x step size x maxdepth 1..6 x start x scripted momentum x scripted raw direction draws (incl. boundary values) x scripted selection thresholds. R1: from every state of the final block the real nuts::draw is re-run with the mirrored doubling choices and must visit the same states with the same depth and stopping reason; R2: with the same scripted thresholds the implementation selects the index the reference selection law (min(1, w_new/w_old) for the tree holding the start, w_new/(w_old+w_new) in sub-trees) selects; the sequence of random draws is the predicted one; R3: direction = sign bit of the raw uniform u32; tree building equals RefNuts (Appendix A). Divergent trajectories are outside the quantifier and skipped; near-ties skipped and counted. Non-trivial = depth >= 2", n, |rs, _| gen_nuts_scenario(rs));
+    let n2 = ctx.n(48, 2000);
+    let quick = tier == Tier::Quick;
+    ctx.run_batch("stationarity", "invariance, statistically: N independent particles start from exact i.i.d. draws of the target (Gaussians incl. correlated, Student-t, log-gamma, banana; dimension 1..4) and make 1/3/6 transitions of the real nuts::draw with a fixed transformation (identity, mismatched diagonal, low-rank), step size 0.1..1.2, maxdepth 1..6, default tree options; the particles must still be distributed as the target: per coordinate and for the log density the fraction below the 5/25/50/75/95% quantiles of an independent reference sample is binomial (z statistic, critical 6). Holds for any reversible kernel whatever its mixing speed; a biased selection, direction or acceptance rule shows as a drift", n2, |rs, i| gen_stationary(rs, "C01", i, quick));
     ctx.finish("exploration", components_direct_drive(), vec![
         "given R1-R3 the implementation's kernel is the reference kernel on the explored scenarios; detailed balance of the reference kernel is the algebra of DESIGN.md Appendix A".into(),
         "tolerance for 'same states' 1e-7 x trajectory length (forward and backward integration are not bitwise inverse)".into(),
